@@ -71,6 +71,8 @@ NStop == /\ Is("NStop") /\ comp \in {"canc", "cbs"}
          /\ IF mode = "early" THEN (c.nse = 1 \/ c.nsb = 0) ELSE c.nse = 1
          /\ c.reqB > 0
          /\ E.r = 0
+         \* create_basic_sender: not after the body's callback() has accepted the completion
+         /\ (comp = "cbs") => c.bodycb = 0
          /\ c' = [c EXCEPT !.nstop = 1] /\ Keep
 \* try_complete: at most one caller is told to complete, nobody calls it on a completed operation
 Try == /\ Is("Try") /\ comp = "canc" /\ c.compl = 0
@@ -119,7 +121,7 @@ GuardUse == /\ Is("GuardUse") /\ c.guard = 1 /\ c.cde = 0 /\ E.r = 0 /\ UNCHANGE
 GuardRelease == /\ Is("GuardRelease") /\ c.guard = 1 /\ c.cde = 0 /\ c' = [c EXCEPT !.guard = 2] /\ Keep
 \* ---- create_basic_sender: the body's callback() runs at most once, only for a started, not yet completed operation:
 \* a safe callback invoked after the completion is a no-op.  Late(r) = a safe callback returned, r=1 if the body ran.
-BodyCb == /\ Is("BodyCb") /\ comp = "cbs" /\ c.bodycb = 0 /\ c.compl = 0 /\ c.freed = 0 /\ c.nse = 1
+BodyCb == /\ Is("BodyCb") /\ comp = "cbs" /\ c.bodycb = 0 /\ c.compl = 0 /\ c.freed = 0 /\ c.nse = 1 /\ c.nstop = 0
           /\ c' = [c EXCEPT !.bodycb = 1] /\ Keep
 Late == /\ Is("Late") /\ comp = "cbs"
         /\ (E.r = 1) => c.bodycb = 1
